@@ -27,6 +27,7 @@ RULE = (
     "step budget with the known plaintext / a blob the reference decryptor opens at key id = now, exceptions only where a fresh cache gives the same; (2) reference model covered[T]=max "
     "position obtained, root_loaded: a call the model says is covered makes zero GetKey RPCs. state = history (sequence of operations / schedule prefix); transition = one API call."
     ' The same sequence exploration (depth 3, 8 operations, 3 DC policies) is repeated with the clock in the last L2 interval (A,10,31).'
+    ' Also 17 / 40 triples on one long-lived cache: after the first round through the DC, three further rounds in other orders make no RPC (sync and async).'
 )
 ASSUME = ["reference DC with the scripted security context (authentication is C15-C17's subject)", "deep copy of the live KeyCache is equivalent to replaying the history (cross-checked on sampled histories)"]
 BOUND = {"quick": "depth 3 over 19 ops x 4 policies; mixed flavour/caller histories depth 3 over 19 ops; 2 concurrent tasks, deviation bound 2", "thorough": "depth 3 over all 19 ops x 4 policies + depth 4 over the 10 ops of triple T1 (exact, later); mixed depth 3; 3 concurrent tasks, deviation bound 3"}
